@@ -67,6 +67,9 @@ func (c *collector) withBuffer(fn func([]byte) error) error {
 type collectorID struct {
 	Remote  string
 	GroupID GroupID
+	// IsAsk and IsReply keep a peer's tells, ask requests and ask replies apart:
+	// a reply echoes the asker's GroupID, which can coincide with the GroupID of the peer's own messages.
+	IsAsk, IsReply bool
 }
 
 type fragLayer struct {
@@ -87,8 +90,8 @@ func newFragLayer() *fragLayer {
 	return fl
 }
 
-func (fl *fragLayer) handlePart(remote p2p.Addr, gid GroupID, partIndex, partCount uint16, totalSize uint32, body []byte, fn func([]byte) error) error {
-	cid := collectorID{Remote: remote.String(), GroupID: gid}
+func (fl *fragLayer) handlePart(remote p2p.Addr, gid GroupID, isAsk, isReply bool, partIndex, partCount uint16, totalSize uint32, body []byte, fn func([]byte) error) error {
+	cid := collectorID{Remote: remote.String(), GroupID: gid, IsAsk: isAsk, IsReply: isReply}
 	if partCount < 2 && !disableFastPath {
 		return fn(body)
 	}
